@@ -447,9 +447,9 @@ CHECKS['C20'] = dict(
                                  "gap level bound 0.02 RMS after 700 ms of silence; resumed audio within -12..+6 dB of the input level (sanity bounds, measured extremes are in the evidence)"],
     evals_counter='packets',
     runs=[
-        dict(h='h_c20.c', mode='sched', flavour='prod', n={'quick': 3200, 'thorough': 60000}),
-        dict(h='h_c20.c', mode='sched', flavour='asan', n={'quick': 480, 'thorough': 12000}),
-        dict(h='h_c20.c', mode='sched', flavour='prod-fixed', n={'quick': 800, 'thorough': 20000}),
+        dict(h='h_c20.c', mode='sched', flavour='prod', ref='float', n={'quick': 3200, 'thorough': 60000}),
+        dict(h='h_c20.c', mode='sched', flavour='asan', ref='float', n={'quick': 480, 'thorough': 12000}),
+        dict(h='h_c20.c', mode='sched', flavour='prod-fixed', ref='fixed', n={'quick': 800, 'thorough': 20000}),
     ],
     min_nontrivial={'quick': 500, 'thorough': 1000},
     min_counters={'quick': {'packets': 300000, 'dtx_packets': 30000, 'dtx_starts_checked': 500, 'refresh_packets': 1500, 'resumptions_checked': 3000},
